@@ -29,12 +29,12 @@ MODEL = {"M": 32, "P": 2}
 #           generated at the last step of a walk is exported)
 PLANS = {
     "quick": [dict(name="L3-ops4", mode="bfs", L=3, dirs="{0}", ops=4, seglen=3, grid="MC_CfgsQuick", mod=48),
-              dict(name="sim-L5-ops6-bidir", mode="sim", L=5, dirs="{0,1}", ops=6, seglen=4, grid="MC_CfgsThorough", mod=1, walks=25, workers=4)],
+              dict(name="sim-L5-ops6-bidir", mode="sim", L=5, dirs="{0,1}", ops=6, seglen=4, grid="MC_CfgsEverything", mod=1, walks=25, workers=4)],
     "thorough": [dict(name="L3-ops4-full", mode="bfs", L=3, dirs="{0}", ops=4, seglen=3, grid="MC_CfgsThorough", mod=96),
                  dict(name="L4-ops4", mode="bfs", L=4, dirs="{0}", ops=4, seglen=4, grid="MC_CfgsAll12", mod=64),
                  dict(name="L3-ops3-bidir", mode="bfs", L=3, dirs="{0,1}", ops=3, seglen=3, grid="MC_CfgsAll12", mod=8),
-                 dict(name="sim-L5-ops6-bidir", mode="sim", L=5, dirs="{0,1}", ops=6, seglen=4, grid="MC_CfgsThorough", mod=1, walks=300, workers=4),
-                 dict(name="sim-L5-ops8", mode="sim", L=5, dirs="{0}", ops=8, seglen=5, grid="MC_CfgsThorough", mod=1, walks=300, workers=4)],
+                 dict(name="sim-L5-ops6-bidir", mode="sim", L=5, dirs="{0,1}", ops=6, seglen=4, grid="MC_CfgsEverything", mod=1, walks=150, workers=4),
+                 dict(name="sim-L5-ops8", mode="sim", L=5, dirs="{0}", ops=8, seglen=5, grid="MC_CfgsEverything", mod=1, walks=150, workers=4)],
 }
 
 # pre-fix shapes of the code: each must make TLC violate ImplSatisfiesProp
@@ -46,7 +46,7 @@ DEFECTS = [
     dict(name="saved-pages-leak-at-close", fix="82c8ff2", subst={r"ReleaseSaved = TRUE": "ReleaseSaved = FALSE"}, grid="MC_CfgsKeep",
          what="closeHalfConnection does not release the saved (KeepFrom) pages"),
     dict(name="cleansg-skip-accounting", fix="ea98ddb", subst={r"CleanSkipFixed = TRUE": "CleanSkipFixed = FALSE"}, grid="MC_CfgsClean",
-         what="cleanSG applies the KeepFrom offset again behind a live packet"),
+         what="cleanSG applies the KeepFrom offset again behind a live packet", tier="thorough"),     # shortest counterexample: 4 operations
 ]
 
 # design-level findings escalated beyond the exhaustive bound: one scripted scenario each, run through the model
@@ -103,6 +103,8 @@ def check_and_export(plan, seed, wd, fam=REASM):
             nsig[k] = nsig.get(k, 0) + 1
             beh.append(l)
     r.signatures = len(nsig)
+    # decisions of the transcribed code taken in the last operation of some complete behaviour (branch coverage of the model)
+    r.decisions = sorted(set(t for k in nsig for t in json.loads(k[len('"sig":'):-1])[0]))
     cex = [json.loads(l) for l in _printed(r, "CEX ")]
     return r, beh, cex
 
@@ -211,7 +213,7 @@ def plan_pipeline(plan, seed, binp, wd, want_self_test, fam=REASM):
     r, beh, cex = check_and_export(plan, seed, os.path.join(wd, "tlc"), fam)
     rec = {"plan": plan, "tlc_states": r.distinct, "tlc_generated": r.generated, "depth": r.depth, "tlc_wall_s": round(r.wall, 1),
            "invariants": fam["invariants"], "violated": r.violated, "behaviours_exported": len(beh),
-           "distinct_last_operation_signatures": r.signatures}
+           "distinct_last_operation_signatures": r.signatures, "code_decisions_exercised": r.decisions}
     log("[impl] %s: %d states, %.1fs, violated=%s, %d behaviours exported" % (plan["name"], r.distinct, r.wall, r.violated, len(beh)))
     extra = []
     if r.violated:
@@ -300,7 +302,8 @@ def run_impl(ctx, verdict_for, with_self_test=True, fam=REASM):
     with ThreadPoolExecutor(max_workers=12) as ex:
         # everything is independent: plans (TLC -> replay -> validation), defect-finding configurations (small state
         # spaces) with the replay of their counterexamples, the bookkeeping note, the scripted escalations
-        fd = [ex.submit(defect_run, d, os.path.join(wd, "defect-" + d["name"]), fam) for d in fam["defects"]]
+        fd = [ex.submit(defect_run, d, os.path.join(wd, "defect-" + d["name"]), fam) for d in fam["defects"]
+              if d.get("tier", "quick") == "quick" or ctx.tier == "thorough"]
         fc = ex.submit(cex_pipeline, fd, binp, os.path.join(wd, "cex"))
         fn = [ex.submit(f, os.path.join(wd, "note-%d" % i)) for i, f in enumerate(fam.get("notes", []))]
         fe = [ex.submit(escalation_run, e, binp, os.path.join(wd, "esc-" + e["name"]), fam) for e in fam["escalations"]]
